@@ -107,10 +107,19 @@ func c04RandOutcome(r *Rng, method string) famOutcome {
 	case x < 55:
 		return famOutcome{Kind: "ret", Val: c04RandValue(r, method)}
 	case x < 82:
-		sub := Pick(r, []string{"rpc", "rpc", "plain", "wrap"})
+		sub := Pick(r, []string{"rpc", "rpc", "plain", "wrap", "rpcfull", "shared"})
 		o := famOutcome{Kind: "err", Sub: sub, Msg: famRandText(r)}
-		if sub == "rpc" {
+		switch sub {
+		case "rpc":
 			o.Typ = Pick(r, []string{"ValueError", "TypeError", "RuntimeError", "KeyError", "CustomAppError", ""})
+		case "rpcfull": // an error relayed from elsewhere: request id, kind, traceback of its own
+			o.Typ = Pick(r, []string{"ValueError", "RpcError", ""})
+			o.RID = Pick(r, []string{"downstream-7f3a", "", "r1", famRandText(r)})
+			o.EKind = Pick(r, []string{"", "session_lost", "MethodNotImplementedError", famRandText(r)})
+			o.TB = Pick(r, []string{"", "Traceback (most recent call last):\n  File x", famRandText(r)})
+		case "shared":
+			o.Msg = ""
+			o.Int = r.Intn(3)
 		}
 		return o
 	default:
@@ -140,6 +149,28 @@ func c04Gen(g *Gen) {
 			rid := Pick(r, rids)
 			// the same program on both transports
 			lines = append(lines, c04Line("pipe", method, lvl, rid, sc), c04Line("http", method, lvl, rid, sc))
+		}
+		g.Case(lines...)
+	}
+	// sentinel histories: the SAME package-level *RpcError value returned by several calls of one
+	// history, every call with its own request id (also an empty one first), both transports
+	for i := g.N(250, 4000); i > 0; i-- {
+		var lines []string
+		slot := r.Intn(3)
+		ids := []string{"req-A", "req-B", "", "req-C", "идентификатор-✓", "r1"}
+		for k := r.Range(2, 5); k > 0; k-- {
+			method := Pick(r, famUnaryMethods)
+			var sc *famUnaryScript
+			switch r.Intn(5) {
+			case 0: // an unrelated call in between
+				sc = &famUnaryScript{Logs: c04RandLogs(r, 2), Out: c04RandOutcome(r, method)}
+			case 1:
+				sc = &famUnaryScript{Logs: c04RandLogs(r, 2), Out: famOutcome{Kind: "err", Sub: "rpcfull", Typ: "RpcError", Msg: "relayed",
+					RID: Pick(r, ids), EKind: Pick(r, []string{"", "session_lost"})}}
+			default:
+				sc = &famUnaryScript{Logs: c04RandLogs(r, 2), Out: famOutcome{Kind: "err", Sub: "shared", Int: slot}}
+			}
+			lines = append(lines, c04Line(Pick(r, []string{"pipe", "http"}), method, famRandLevel(r), Pick(r, ids), sc))
 		}
 		g.Case(lines...)
 	}
@@ -188,6 +219,7 @@ func c04ParseLine(l string) (*c04Call, error) {
 
 func c04Exec(c *Case) {
 	c04Setup()
+	famResetShared()
 	lastPipe := map[string]string{} // script text (without transport) -> pipe observation
 	for _, l := range c.Lines {
 		call, err := c04ParseLine(l)
